@@ -68,10 +68,14 @@ Ref(ctx, p) == [ctx |-> ctx, p |-> p]
 
 \* contexts that may be used at a site (GitHub's context availability table)
 Avail(kind) ==
-  CASE kind \in {"run", "with", "stepenv", "outputs"} -> {"steps", "needs", "matrix", "inputs", "secrets", "github"}
+  CASE kind \in {"run", "with", "stepenv", "outputs", "stepname", "steptimeout"}
+         -> {"steps", "needs", "matrix", "inputs", "secrets", "github"}
     [] kind \in {"stepif", "envurl"} -> {"steps", "needs", "matrix", "inputs", "github"}
     [] kind = "jobenv" -> {"needs", "matrix", "inputs", "secrets", "github"}
-    [] kind \in {"jobname", "environment"} -> {"needs", "matrix", "inputs", "github"}
+    [] kind \in {"jobname", "environment", "runson", "container", "service", "concurrency", "timeout", "conterr", "callwith"}
+         -> {"needs", "matrix", "inputs", "github"}
+    [] kind = "callsecret" -> {"needs", "matrix", "inputs", "secrets", "github"}
+    [] kind \in {"mxrow", "mxinc", "mxexc"} -> {"needs", "inputs", "github"}       \* jobs.<job_id>.strategy
     [] kind = "jobif" -> {"needs", "inputs", "github"}
     [] kind = "wfenv" -> {"inputs", "secrets", "github"}
     [] kind = "runname" -> {"inputs", "github"}
@@ -80,12 +84,24 @@ CtxVar(ctx) == IF ctx = "ghinputs" THEN "github" ELSE ctx
 
 HeaderSites(s) == {Site("runname", 0, 0), Site("wfenv", 0, 0)}
                   \cup (IF s.call.k = "some" /\ s.call.outs THEN {Site("callout", 0, 0)} ELSE {})
-JobPreSites(s, j) == {Site(x, j, 0) : x \in {"jobname", "jobif"} \cup (IF s.jobs[j].kind = "normal" THEN {"jobenv"} ELSE {})}
-StepSites(j, i) == {Site(x, j, i) : x \in {"stepif", "run", "with", "stepenv"}}
+\* values inside strategy.matrix: an element of a literal row, a value of a literal include element, of an exclude element
+MatrixSites(s, j) ==
+  LET m == s.jobs[j].mx IN
+  IF m.k # "lit" THEN {}
+  ELSE (IF \E i \in DOMAIN m.rows : m.rows[i].lit THEN {Site("mxrow", j, 0)} ELSE {})
+       \cup (IF \E i \in DOMAIN m.inc.cs : m.inc.cs[i] # "$" THEN {Site("mxinc", j, 0)} ELSE {})
+       \cup (IF m.exc \in {"list", "elem"} THEN {Site("mxexc", j, 0)} ELSE {})
+JobPreSites(s, j) ==
+  {Site(x, j, 0) : x \in {"jobname", "jobif"}
+     \cup (IF s.jobs[j].kind = "normal"
+            THEN {"jobenv", "container", "service", "concurrency", "timeout", "conterr"}
+                 \cup (IF s.jobs[j].runs = "u" THEN {"runson"} ELSE {})      \* the probe replaces the label
+            ELSE {"callwith", "callsecret"})}
+StepSites(j, i) == {Site(x, j, i) : x \in {"stepname", "stepif", "run", "with", "stepenv", "steptimeout"}}
 JobPostSites(s, j) == IF s.jobs[j].kind # "normal" THEN {}
                       ELSE {Site("environment", j, 0), Site("envurl", j, 0)}
                            \cup (IF s.jobs[j].outs # <<>> THEN {Site("outputs", j, 0)} ELSE {})
-JobSites(s, j) == JobPreSites(s, j) \cup JobPostSites(s, j) \cup UNION {StepSites(j, i) : i \in DOMAIN s.jobs[j].steps}
+JobSites(s, j) == MatrixSites(s, j) \cup JobPreSites(s, j) \cup JobPostSites(s, j) \cup UNION {StepSites(j, i) : i \in DOMAIN s.jobs[j].steps}
 AllSites(s) == HeaderSites(s) \cup UNION {JobSites(s, j) : j \in DOMAIN s.jobs}
 
 \* steps of job j whose ids are visible from the site
@@ -251,7 +267,8 @@ OpJobPre(r, s, j) ==
   LET job == s.jobs[j]
       r1 == [r EXCEPT !.ex.needsTy = CalcNeedsType(s, j)]
       r2 == IF job.mx.k # "none" THEN [r1 EXCEPT !.ex.matrixTy = CheckMatrix(job.mx)] ELSE r1
-      o  == ObsOf(JobPreSites(s, j), r2)
+      \* the matrix values are checked while the matrix type is computed: needs already set, matrix not yet
+      o  == ObsOf(MatrixSites(s, j), r1) \cup ObsOf(JobPreSites(s, j), r2)
       r3 == [r2 EXCEPT !.ex.stepsTy = EmptyStrict,
                        !.id = [isnil |-> FALSE, seen |-> {}],
                        !.jn.nodes = @ \cup {j}]
@@ -341,7 +358,9 @@ BuildJobs ==
            /\ \E sid \in StepIds : sh' = [sh EXCEPT !.jobs[j].steps = Append(@, sid)]
         \/ \E x \in RunsOn : job.runs = "u" /\ x # "u" /\ sh' = [sh EXCEPT !.jobs[j].runs = x]
         \/ \E x \in Shells : job.shell = "" /\ sh' = [sh EXCEPT !.jobs[j].shell = x]
-        \* matrix: rows, then include, then exclude
+  \* matrix (normal and reusable-workflow jobs): rows, then include, then exclude
+  \/ /\ NJ > 0
+     /\ LET j == NJ job == sh.jobs[NJ] m == sh.jobs[NJ].mx IN
         \/ /\ j \in MxJobs /\ "expr" \in IncKinds /\ MxEmpty(m)
            /\ sh' = [sh EXCEPT !.jobs[j].mx.k = "expr"]
         \/ /\ m.k \in {"none", "lit"} /\ m.inc.k = "none" /\ m.exc = "none"
